@@ -169,7 +169,9 @@ def r3(c):
         if k == 'Header':
             ok = q.dominated_by_any(b, q.outcomes(b, ph).get('success', []), ('b', i))
             h, n = q.sem(b, rv['a'][0]), q.sem(b, rv['a'][1])
-            ok = ok and h.kind == 'call' and h.cs is ph and n.kind == 'call' and n.cs is ph and 'field:0' in ''.join(h.proj) and 'field:1' in ''.join(n.proj)
+            ha, na = q.sem_alts(b, rv['a'][0]), q.sem_alts(b, rv['a'][1])
+            ok = ok and bool(ha) and bool(na) and all(x.kind == 'call' and x.cs is ph and 'field:0' in ''.join(x.proj) for x in ha) and \
+                all(x.kind == 'call' and x.cs is ph and 'field:1' in ''.join(x.proj) for x in na)
             c.ob('header-state', ok, 'state := Header(header, adu_len) stores exactly the checked parse_header result', '%r %r' % (h, n), loc_of(b, i, stmt=s))
     r = P.fn(MP + '::reset')
     ag = [s for _, s in r.aggregates(PS)]
@@ -201,15 +203,23 @@ def r4(c):
     c.ob('loop', b.in_cycle(pr.node) and b.in_cycle(rs.node) and b.cycle_of(pr.node) == b.cycle_of(rs.node), 'parse and read_some alternate in one loop', '', pr.loc())
     # Err edge: reset then return the error
     err = oc.get('Err', [])
-    c.ob('err-edge', len(err) == 1, 'the parse result is matched on Err', str(err), pr.loc())
+    c.ob('err-edge', len(err) >= 1, 'the parse result is examined for Err', str(err), pr.loc())
     for cs in resets:
         c.ob('reset/on-error-only', q.dominated_by_any(b, err, cs.node), 'parser.reset() runs only on the Err edge of parse (a cancelled or incomplete read keeps the header state)', '', cs.loc())
     c.floor('reset sites', len(resets), 1)
-    for e in err:
-        reach = b.reach_set(e)
+    # wherever the error is first noticed (a match arm, `is_err()`, `?`): from there the loop is left with that error
+    first = [e for e in err if not any(o is not e and e in b.reach_set(o) for o in err)]
+    for e in first:
+        reach = q.reach_from_outcome(b, pr, e, oc)
         c.ob('err/no-retry', pr.node not in reach and rs.node not in reach, 'after a framing error the loop is left (no further parsing / reading)', '', loc_of(b, e[1]))
-        xs = [x for x in q.exits(b) if x['node'] in reach and x['kind'] == 'agg']
-        okx = bool(xs) and all(x['variant'] == 'Err' and q.sem(b, x['rv']['a'][0]).kind == 'call' and q.sem(b, x['rv']['a'][0]).cs is pr for x in xs)
+        xs = [x for x in q.exits(b) if x['node'] in reach]
+        okx = bool(xs)
+        for x in xs:
+            if x['kind'] == 'agg':
+                okx = okx and x['variant'] == 'Err' and q.sem(b, x['rv']['a'][0]).kind == 'call' and q.sem(b, x['rv']['a'][0]).cs is pr
+            else:
+                ev = q.exit_error(b, x)
+                okx = okx and q.exit_is_failure(b, x) and ev is not None and ev[0] == 'call' and ev[1] is pr
         c.ob('err/returned', okx and any(cs.node in reach for cs in resets), 'the error returned is the parser\'s error, after reset', '', loc_of(b, e[1]))
     # Ok(None): read more, checked
     okn = [e for e, v, info in b.variant_edges('core::option::Option') if v == 'None' and q.sem(b, info['place']).kind == 'call' and q.sem(b, info['place']).cs is pr]
